@@ -60,6 +60,14 @@ def gen(rng, tier):
         def sweep(frac):
             return [['ins', R.h(c), s_ + rng.randint(0, max(0, e_ - s_ - 1)), e_ + rng.randint(0, 2), rng.choice([1, 1, 2])] for (c, s_, e_) in regs if rng.random() < frac]
         ops = sweep(rng.choice([0.3, 0.95, 1.0])) + [['get'], ['reset'], ['get']] + sweep(0.03) + [['insat', rng.randrange(nreg), 2], ['get'], ['reset'], ['get']] + sweep(0.05) + [['get']]
+        if k % 4 == 0:
+            # more than 1024 (and 4096) counter updates between two resets, the last ones on slots not touched before
+            first = [r for r in regs[:nreg // 2]]
+            heavy = []
+            while len(heavy) < rng.choice([1030, 1100, 1100, 4100]):
+                c, s_, e_ = rng.choice(first); heavy.append(['ins', R.h(c), s_, e_, 1])
+            late = [['ins', R.h(c), s_, e_, 3] for (c, s_, e_) in regs[nreg // 2:][:5]] + [['insat', nreg - 1, 4]]
+            ops += [['reset']] + heavy + late + [['get'], ['reset'], ['get']] + sweep(0.02) + [['get']]
         yield Case(sx.dump(['cov', ['regs'] + [[R.h(c), s_, e_] for c, s_, e_ in regs], ['ops'] + ops]), True, 'many-regions')
 
 
